@@ -21,8 +21,8 @@ func ruleC14(r *Report) {
 	r.NotDecided("html/template's escaping itself; url.Parse treatment of odd scheme spellings; adequacy of the CSP header")
 	r.Rule("C14.template-type", "every template executed by the library is an html/template (no text/template import, constant template sources, exported template fields typed *html/template.Template)", 8)
 	r.Rule("C14.no-trusted-cast", "no non-constant string is converted to a trusted html/template type (HTML, HTMLAttr, JS, JSStr, URL, CSS, Srcset); template data fields are plain strings", 1)
-	r.Rule("C14.body-writes", "non-constant bytes written to an HTML response derive only from executed html/templates", 2)
-	r.Rule("C14.endpoint", "every metadata type with Binding+Location attributes has an UnmarshalXML that passes Location (and ResponseLocation when present) through the scheme checker with its own Binding, error => reject; the checker rejects unparsable and non-http(s) URLs for the five known bindings and blanks the location otherwise", 7)
+	r.Rule("C14.body-writes", "non-constant bytes written to an HTML response derive only from executed html/templates", 1)
+	r.Rule("C14.endpoint", "every metadata type with Binding+Location attributes has an UnmarshalXML that passes Location (and ResponseLocation when present) through the scheme checker with its own Binding, error => reject; the checker rejects unparsable and non-http(s) URLs for the five known bindings and blanks the location otherwise", 4)
 
 	checkTemplateTypes(r, p, libFunctions(p), "C14.template-type")
 	checkTrustedCasts(r, p, libFunctions(p), "C14.no-trusted-cast")
